@@ -119,16 +119,42 @@ variable {A : Type}
     accumulator of the moment its intent was logged. -/
 theorem verifier_unlinks_only_logged_trash (C : Checker A) (d : Dir A) (h : Reach C d) (i : Nat) (x : Name)
     (hx : (pass C d).1[i]? = some (Act.unlinkTrash x)) :
-    ∃ n es a names, (run d ((pass C d).1.take i)).vM = some n ∧ (n, es, a) ∈ (run d ((pass C d).1.take i)).done
-      ∧ plan es = some names ∧ x ∈ names ∧ (C.check a es).isSome = true :=
+    ∃ n es a names later, (run d ((pass C d).1.take i)).vM = some n ∧ (n, es, a) ∈ (run d ((pass C d).1.take i)).done
+      ∧ plan C.asWas later es = some names ∧ x ∈ names ∧ (C.check a es).isSome = true :=
   unlinks_justified C _ d (reach_justified C d h) (pass_legal C d) i x hx
 
 /-- … and a name in a plan is the trash name of a file an edit of the fragment removes and does not
     add again itself (`7cb13e3`), or of the log an edit other than the first records in `L` -/
-theorem plan_names_recorded_removals (es : List Edit) (names : List Name) (h : plan es = some names) (x : Name) (hx : x ∈ names) :
+theorem plan_names_recorded_removals (asWas : Bool) (later : List Name) (es : List Edit) (names : List Name)
+    (h : plan asWas later es = some names) (x : Name) (hx : x ∈ names) :
     (∃ e, e ∈ es ∧ ∃ r, r ∈ e.rm ∧ r ∉ e.add ∧ x = trashSst r) ∨
     (∃ e, e ∈ es.drop 1 ∧ ∃ v k, getInfo e 76 = some v ∧ parseU64 v = some k ∧ x = trashLog k) :=
-  mem_plan es names h x hx
+  mem_plan asWas later es names h x hx
+
+/-- **The verifier keeps the trash a later check needs** (as repaired, D-28;
+    fixes/d28-verifier-removed-recreated-removed.diff).  Files are named after their contents: a
+    compaction can write a removed file again, a later edit can remove it again, and `trash/` then
+    holds one copy for both removals, which the checks of the fragments that add it back and remove
+    it again read.  Whenever a pass logs an intent for fragment `n`, no name in it is the trash
+    entry of a file that a fragment numbered above `n` or `MANIFEST` removes again (`laterRm`): the
+    copy is left to the last removal. -/
+theorem verifier_keeps_needed_trash (C : Checker A) (hC : C.asWas = false) (d : Dir A) (i n : Nat) (es : List Edit)
+    (names : List Name) (o : A) (h : (pass C d).1[i]? = some (Act.intent n es names o)) (r : Name)
+    (hr : r ∈ laterRm (run d ((pass C d).1.take i)) n) : trashSst r ∉ names :=
+  pass_keeps_needed_trash C hC d i n es names o h r hr
+
+/-- **as the code was** (counterexample, D-28): `x` removed by fragment 1, added again by fragment 2,
+    removed again by fragment 3, one copy in `trash/`: the pass gives the copy to fragment 1, stops
+    at fragment 2 with an error (`x` is neither in `trash/` nor in `sst/`), and so does every pass
+    after it; as repaired the pass goes through and fragment 3 takes the copy -/
+theorem verifier_removed_recreated_removed :
+    ((pass chainCheckerAsWas exR).2 = .corrupt ∧ (final chainCheckerAsWas exR).trash = []
+      ∧ (pass chainCheckerAsWas (final chainCheckerAsWas exR)).2 = .corrupt
+      ∧ (final chainCheckerAsWas (final chainCheckerAsWas exR)).frags.map (·.1) = [2, 3, 4]) ∧
+    ((pass chainChecker exR).2 = .ok ∧ (final chainChecker exR).trash = []
+      ∧ (final chainChecker exR).frags.map (·.1) = [4]) :=
+  ⟨⟨exR_as_was.1, exR_as_was.2.1, exR_as_was.2.2.2.1, exR_as_was.2.2.2.2⟩,
+   ⟨exR_repaired.1, exR_repaired.2.1, exR_repaired.2.2.1⟩⟩
 
 /-- … and an intent is logged only for a fragment that is in `mani/` other than the newest one and
     `MANIFEST`, with nothing else pending, after its check passed against the accumulator in
@@ -228,6 +254,8 @@ end Blue.Props.C08
 #print axioms Blue.Props.C08.crash_keeps_named_files
 #print axioms Blue.Props.C08.verifier_unlinks_only_logged_trash
 #print axioms Blue.Props.C08.plan_names_recorded_removals
+#print axioms Blue.Props.C08.verifier_keeps_needed_trash
+#print axioms Blue.Props.C08.verifier_removed_recreated_removed
 #print axioms Blue.Props.C08.verifier_acts_legal
 #print axioms Blue.Props.C08.verifier_never_removes_listed
 #print axioms Blue.Props.C08.verifier_crash_safe
